@@ -152,6 +152,7 @@ def check_C04(tier, seed):
     em = lambda r: {"batch": r.choice([1, 1, 1, 2]), "period": r.choice([0, 0, 0, 20]), "threads": r.choice([2, 2, 3, 3, 4]),
                     "skew": r.choice([0, 30, 150, 600]), "skewp": r.choice(["tphase", "drain", "drain", "nphase"])}
     c = syscamp.Campaign("C04", tier, seed, own_ids=["C04"])
+    c.gvt_conformance = True
     try:
         c.build(dist=True)
         # the two-level GVT algorithm of gvt.c itself, exhaustively (abstract workload)
